@@ -77,8 +77,9 @@ class Pack(Obligation):
         self.xmax, self.errb, self.pinpow = xmax, errb, pinpow
         self.timeout_ms = tmo
         self.name = 'pack[shape=%dx%d,band=%d..%d,|x|<=%g,errbound=%s%s]' % (
-            shape + band + (xmax, errb, ',maxdiff=2**%d' % band[0]
-                            if pinpow else ''))
+            shape + band + (xmax, errb, '' if not pinpow else (
+                ',maxdiff just below 2**%d' % (band[0] + 1)
+                if pinpow == 'below' else ',maxdiff=2**%d' % band[0])))
         self.bounds = {'shape': shape, 'exponent band': band,
                        '|x|': '<= %g' % xmax}
         self._space = None
@@ -112,7 +113,17 @@ class Pack(Obligation):
             mx = ds[0]
             for d in ds[1:]:
                 mx = z3.If(z3.fpGT(d, mx), d, mx)
-            ctx.assume(z3.fpEQ(mx, z3.FPVal(2.0 ** self.band[0], symx.F32)))
+            if self.pinpow == 'below':
+                # largest difference in the top 1/128 of its octave: where a
+                # half-step carried from the previous cell can push a packed
+                # difference out of the byte range
+                hi = 2.0 ** (self.band[0] + 1)
+                ctx.assume(z3.And(
+                    z3.fpGEQ(mx, z3.FPVal(hi * 127.0 / 128.0, symx.F32)),
+                    z3.fpLT(mx, z3.FPVal(hi, symx.F32))))
+            else:
+                ctx.assume(z3.fpEQ(mx, z3.FPVal(2.0 ** self.band[0],
+                                                symx.F32)))
         a = np.empty(self.shape, dtype=object)
         for i, x in enumerate(xs):
             a.reshape(-1)[i] = x
@@ -240,6 +251,10 @@ def obligations(tier):
                 obs.append(Pack(sh, b, 100000, 1024.0, False))
         for e in (-3, -2, -1, 0, 1, 2):
             obs.append(Pack((1, 3), (e, e), 240000, 16.0, False, True))
+        # largest difference just below a power of two, three cells: the
+        # rounding carried from the second cell meets the byte range
+        for e in (-1, 0):
+            obs.append(Pack((1, 3), (e, e), 400000, 16.0, False, 'below'))
     else:
         for sh in [(1, 2), (1, 3), (2, 2), (1, 4), (2, 3)]:
             for b in [(-20, -11), (-10, -4), (-3, -1), (0, 3), (4, 10)]:
@@ -247,4 +262,6 @@ def obligations(tier):
         for sh in [(1, 2), (1, 3)]:
             for e in range(-3, 4):
                 obs.append(Pack(sh, (e, e), 1800000, 1024.0, True))
+        for e in (-2, -1, 0, 1, 2):
+            obs.append(Pack((1, 3), (e, e), 1800000, 16.0, False, 'below'))
     return obs
